@@ -339,9 +339,56 @@ theorem late_unsubscribe_counterexample :
 example : rrun true {} [.subscribe, .subscribe, .unsub 0] = some { gens := 2, alive := [false, true], unsubRan := [true, false] } := by
   decide
 
+/-- "readers of the previous generation are stopped before rejoining": of one Reader, only the current generation's
+fetchers can be running (both code variants) -/
+theorem previous_generation_fetchers_stopped (cap : Bool) (s : RR) (h : RReachable cap s) (g : Nat) (hg : g + 1 < s.gens) :
+    s.alive.getD g false = false :=
+  (oneinv_reachable cap s h).old g hg
+
 /-- regenerated: `Reader.unsubscribe` cancels the func it is given (the generation's own), not `r.cancel` -/
 theorem unsubscribe_matches_source : KV.Gen.Group.unsubscribeCancels = "parameter" := by decide
 
 end ReaderRunSection
+
+/-! ## ReadMessage = FetchMessage + synchronous CommitMessages (C03-D30, known finding) -/
+section ReadMessageSection
+
+/-- `reader.go ReadMessage`: `m := FetchMessage(); if err := CommitMessages(m); err != nil { return Message{}, err }; return m` -/
+structure RM where
+  next : Nat := 0                 -- next offset the front hands out (gap-free, `front_no_gap_per_generation`)
+  returned : List Nat := []       -- what the application received
+  committed : Option Nat := none
+  deriving DecidableEq, Repr
+
+/-- one ReadMessage call; `commitOk = false`: every retry of the commit failed with a transient error -/
+def RM.read (s : RM) (commitOk : Bool) : RM :=
+  if commitOk then { next := s.next + 1, returned := s.returned ++ [s.next], committed := some (s.next + 1) }
+  else { s with next := s.next + 1 }   -- the message is dropped, the error returned
+
+def RM.run (s : RM) : List Bool → RM
+  | [] => s
+  | b :: bs => (s.read b).run bs
+
+/-- as long as no commit fails the application receives every record and the commit covers only received ones -/
+theorem readmessage_no_gap_without_failures (n : Nat) :
+    (RM.run {} (List.replicate n true)).returned = List.range n := by
+  have key : ∀ (k : Nat) (s : RM), s.returned = List.range s.next →
+      (RM.run s (List.replicate k true)).returned = List.range (s.next + k) := by
+    intro k
+    induction k with
+    | zero => intro s h; simpa [RM.run] using h
+    | succ k ih =>
+      intro s h
+      simp only [List.replicate_succ, RM.run]
+      have := ih (s.read true) (by simp [RM.read, h, List.range_succ])
+      simpa [RM.read, Nat.add_assoc, Nat.add_comm 1 k] using this
+  simpa using key n {} rfl
+
+/-- C03-D30: one failed commit (transient, the generation lives on) and the next ReadMessage's commit covers a record the
+application never received -/
+theorem readmessage_gap_counterexample :
+    RM.run {} [false, true] = { next := 2, returned := [1], committed := some 2 } := by decide
+
+end ReadMessageSection
 
 end KV.Commit.C03
